@@ -33,6 +33,11 @@ CHECKS = {
    text="Generated resource scenarios (real quiver_io file builtins, mock backend that logs every execute/close_resource) with handles moved by message, tuple, spawn argument, capture and captured closure, then used/closed/forwarded/held/left in a mailbox by awaited and un-awaited owners, under chosen interleavings incl. deferred effect completions; an ownership model driven by the environment's event consumption order decides for every effect request whether it must or must not reach the backend, that offenders fail, that completion reports close exactly the reported process's open resources once, and that no terminated owner keeps an open resource at quiescence. Two defect classes are recorded as known findings (resources of un-awaited owners / of already-reported dead recipients are never closed).",
    design="§3 C14",
    note="Operations on already closed resources are counted, not judged. The io_uring native backend itself is not exercised (mock backend)."),
+ "C12": dict(
+   technique="runtime monitoring: differential oracle (reference models over BigInt/Vec<u8>) around direct builtin calls, catch_unwind + child-process isolation, both build profiles (overflow checks / debug assertions as sanitizers)",
+   text="All 45 pure builtins are called directly with arguments of their declared type drawn from boundary pools (magnitudes around 2^31/2^32/2^63/2^64, 16 MiB limits, unaligned bit windows) with binaries built in random rope shapes of equal content; results are compared with three-zone reference models (must-value / must-error / either), every rope-shaped case is repeated with flat arguments, panics are caught per call and aborts/OOM are attributed through child processes; run in the overflow-checked and the release profile.",
+   design="§3 C12",
+   note="Models follow the builtins' doc comments; where they are silent the model accepts an error or the listed value(s). Slow cases are inconclusive (hang verdicts would need the scaling test of DESIGN §2.8). sin/cos are checked for totality only."),
 }
 
 NOT_BUILT = "check not built yet in this round (work in progress; see DESIGN.md §6 build order)"
